@@ -152,4 +152,78 @@ theorem plain_example :
       ((plainFrame [20] [0,0,0,0,0,0] ++ plainFrame [21, 1] [9,9,9,9,9]).map fun b => [b])).2 = [[20], [21, 1]] := by
   decide +kernel
 
+
+theorem take_of_prefix {a b : Bytes} (h : a <+: b) (n : Nat) (hn : n ≤ a.length) : a.take n = b.take n := by
+  obtain ⟨t, rfl⟩ := h
+  rw [List.take_append_of_le_length hn]
+
+/-- **Key derivation is RFC 4253 §7.2**: for every hash with a fixed non-zero digest length and EVERY requested
+    key length, the loop of `Kex.compute_key` returns the first `keylen` bytes of `K1 ‖ K2 ‖ …` with
+    `K1 = HASH(K‖H‖X‖session_id)`, `K(n+1) = HASH(K‖H‖K1‖…‖Kn)`. -/
+theorem compute_key_eq_rfc (H : Bytes → Bytes) (k h x sid : Bytes) (d : Nat) (hd : ∀ m, (H m).length = d)
+    (hpos : 0 < d) (keylen m : Nat) (hm : keylen ≤ m * d) :
+    computeKey H k h x sid keylen = (rfcStream H k h x sid m).take keylen := by
+  unfold computeKey
+  obtain ⟨m0, _, h0, hlen0⟩ := ckLoop_rfc H k h x sid d hd hpos keylen keylen 0 (by omega)
+  simp only [rfcStream] at h0
+  rw [h0]
+  have l0 := rfcStream_length H k h x sid d hd m0
+  have l1 := rfcStream_length H k h x sid d hd m
+  rcases Nat.le_total m0 m with hle | hle
+  · exact take_of_prefix (rfcStream_prefix H k h x sid m0 m hle) keylen (by omega)
+  · exact (take_of_prefix (rfcStream_prefix H k h x sid m m0 hle) keylen (by omega)).symm
+
+/-- a 3-byte "digest" and a 7-byte key: the loop runs three times -/
+theorem compute_key_example :
+    computeKey (fun m => [UInt8.ofNat m.length, 1, 2]) [9] [8] [65] [7, 7] 7 = [5, 1, 2, 5, 1, 2, 8] := by
+  decide +kernel
+
+/-- **An independent RFC 4253 decoder accepts every frame the sender builds** and recovers the payload: length
+    field, at least four bytes of padding, alignment to `max 8 blocksize` — for every layout of the regenerated
+    table, every payload and every padding bytes. -/
+theorem rfc_decodes_sender_frames (t : Nat × Nat × Nat) (ht : t ∈ Gen.C02.layouts) (payload padding : Bytes)
+    (hpad : padding.length = padLen t.2.2 payload.length t.1) (hsmall : payload.length + 300 < 4294967296) :
+    rfcDecode t.1 t.2.2 (be32 (packetBody payload padding).length ++ packetBody payload padding) = .ok payload := by
+  obtain ⟨hbs, hhdr, _⟩ := layouts_shape t ht
+  have hp := pad_ok t ht payload.length
+  have he := model_pad_eq_gen t ht payload.length
+  simp only at hp
+  rw [← he] at hp
+  obtain ⟨p1, p2, p3⟩ := hp
+  have hlen : (packetBody payload padding).length = 1 + payload.length + padding.length := by
+    simp [packetBody]; omega
+  have h4 := be32_length (packetBody payload padding).length
+  unfold rfcDecode
+  have e0 : ¬ ((be32 (packetBody payload padding).length ++ packetBody payload padding).length < 5) := by
+    simp [h4, hlen]; omega
+  have e1 : (be32 (packetBody payload padding).length ++ packetBody payload padding).take 4 =
+      be32 (packetBody payload padding).length := by
+    rw [List.take_append_of_le_length (by omega), List.take_of_length_le (by omega)]
+  have e2 : beNat (be32 (packetBody payload padding).length) = (packetBody payload padding).length :=
+    beNat_be32 _ (by rw [hlen, hpad]; omega)
+  have e3 : (be32 (packetBody payload padding).length ++ packetBody payload padding).getD 4 0 =
+      UInt8.ofNat padding.length := by
+    rw [List.getD_eq_getElem?_getD, List.getElem?_append_right (by omega), h4]
+    simp [packetBody]
+  have e4 : (UInt8.ofNat padding.length).toNat = padding.length := by
+    simp only [UInt8.toNat_ofNat']; omega
+  have e5 : (be32 (packetBody payload padding).length ++ packetBody payload padding).drop 5 =
+      payload ++ padding := by
+    rw [List.drop_append, h4, List.drop_eq_nil_of_le (by omega)]
+    simp [packetBody]
+  simp only [e0, if_false, e1, e2, e3, e4, e5]
+  have c1 : ¬ ((packetBody payload padding).length + 4 ≠
+      (be32 (packetBody payload padding).length ++ packetBody payload padding).length) := by
+    simp [h4]; omega
+  have c2 : ¬ (padding.length < 4) := by omega
+  have c3 : ¬ ((packetBody payload padding).length < padding.length + 1) := by omega
+  have c4 : ¬ ((t.2.2 - 1 + (packetBody payload padding).length) % (max 8 t.1) ≠ 0) := by
+    rw [hlen, hpad]
+    rcases hbs with h | h <;> rcases hhdr with h' | h' <;> rw [h, h'] at p3 ⊢ <;> simp <;> omega
+  simp only [c1, c2, c3, c4, if_false]
+  rw [hlen]
+  have : 1 + payload.length + padding.length - padding.length - 1 = payload.length := by omega
+  rw [this, List.take_left']
+  rfl
+
 end AsyncsshModel.C02
